@@ -118,13 +118,42 @@ def package_modules():
             if n.startswith('kneeliverse.') and sys.modules[n] is not None]
 
 
+def dispatcher_names():
+    """(modules that define numba dispatchers, every global/attribute name their Python bodies reference).
+    numba resolves those names lazily, at the first call with a new signature — possibly after the harness
+    has installed its seams — and cannot type a Python wrapper or a proxy module, so they keep their
+    original bindings."""
+    mods = set()
+    names = set()
+
+    def walk(code):
+        names.update(code.co_names)
+        for c in code.co_consts:
+            if isinstance(c, types.CodeType):
+                walk(c)
+    for mod in package_modules():
+        for _, obj in sorted(vars(mod).items()):
+            # (a numba dispatcher has both .py_func and .__wrapped__; a harness wrapper has .__wrapped__ = the dispatcher)
+            o = obj if hasattr(obj, 'py_func') else getattr(obj, '__wrapped__', obj)
+            if hasattr(o, 'py_func') and getattr(o.py_func, '__module__', None) == mod.__name__:
+                mods.add(mod.__name__)
+                walk(o.py_func.__code__)
+    return mods, names
+
+
 def install_poison(seed, counter):
     proxy = PoisonNumpy(seed, counter)
+    jit_mods, _ = dispatcher_names()
     for mod in package_modules():
-        if mod.__name__ == 'kneeliverse.metrics':
-            continue          # numba froze its globals at compile time; it has no allocation site
-        if getattr(mod, 'np', None) is np or isinstance(getattr(mod, 'np', None), PoisonNumpy):
-            mod.np = proxy
+        if mod.__name__ in jit_mods:
+            continue          # a module with numba-compiled functions keeps the real numpy (numba resolves `np` itself)
+        for name, obj in sorted(vars(mod).items()):
+            if obj is np or isinstance(obj, PoisonNumpy):
+                setattr(mod, name, proxy)                 # `import numpy as np`, `import numpy`, any alias
+            elif obj is np.empty:
+                setattr(mod, name, proxy.empty)           # `from numpy import empty`
+            elif obj is np.empty_like:
+                setattr(mod, name, proxy.empty_like)
     return proxy
 
 
@@ -185,11 +214,15 @@ class Monitor(object):
         if self.installed:
             return
         originals = {}
+        _, protected = dispatcher_names()
+        self.protected = sorted(protected)
         for mod in package_modules():
             short = mod.__name__.split('.', 1)[1]
             for name, obj in sorted(vars(mod).items()):
                 if name.startswith('_') or getattr(obj, '_kneesim', False):
                     continue
+                if name in protected:
+                    continue      # referenced from numba-compiled code: must keep its original binding
                 is_fn = isinstance(obj, types.FunctionType) and obj.__module__ == mod.__name__
                 is_disp = hasattr(obj, 'py_func') and getattr(obj.py_func, '__module__', None) == mod.__name__
                 if is_fn or is_disp:
@@ -201,7 +234,7 @@ class Monitor(object):
         for mod in package_modules():
             for name, obj in sorted(vars(mod).items()):
                 hit = originals.get(id(obj))
-                if hit is not None and hit[0] is obj:
+                if hit is not None and hit[0] is obj and name not in protected:
                     setattr(mod, name, hit[1])
         self.installed = True
 
@@ -235,7 +268,8 @@ def _fb(x):
     x = float(x)
     if x != x:
         return 'nan'
-    return struct.pack('<d', x).hex()
+    # -0.0 and 0.0 are the same value (an int64 representation cannot even hold the former)
+    return struct.pack('<d', x + 0.0).hex()
 
 
 def enc(v, depth=0):
